@@ -1,6 +1,6 @@
 (* C16 proofs, part 3: state level.  ledger_inv for ALL op lists; abort_releases_all; stop_zero; restartable. *)
 From Coq Require Import List ZArith NArith Bool Arith Lia.
-From LTV.C16 Require Import ParamsGen Model Proofs ProofsInv.
+From LTV.C16 Require Import Model Proofs ProofsInv.
 Import ListNotations.
 Open Scope Z_scope.
 
@@ -114,7 +114,7 @@ Proof.
   intros c m n len s H. unfold pmsg_step.
   destruct (get_row c (rows s)) as [r|]; [|apply reject_inv; auto].
   destruct (ph r); auto.
-  - destruct (N.eqb (hsb r) Params.c16_hs_size); auto.
+  - destruct (N.eqb (hsb r) MP.hs_size); auto.
     set (s1 := with_row c (on_hs (hs_msg (seeding s) (Z.leb (maxc s) (nth 0 (g s) 0)) m n len)) s).
     assert (H1 : Inv s1) by (apply with_row_inv; auto with c16).
     clearbody s1.
@@ -152,6 +152,7 @@ Proof.
   - apply do_close_inv; auto.
   - apply do_close_inv; auto.
   - destruct (opened s); exact H.
+  - exact H.
   - exact H.
 Qed.
 
@@ -267,7 +268,7 @@ Proof.
       destruct (upd _ _ _) as [[? ?] ?]. reflexivity. }
     rewrite K. exact O. }
   cbn [step]. rewrite O1. cbn [active g].
-  assert (I : Inv (mkSt (rows s1) (g s1) (blocks s1) true true (seeding s1) (rej s1) (pexact s1) (maxc s1))).
+  assert (I : Inv (mkSt (rows s1) (g s1) (blocks s1) true true (seeding s1) (rej s1) (pexact s1) (maxc s1) (maxpex s1))).
   { exact (ledger_inv sd (ops ++ [Stop])). }
   split; [reflexivity|]. split; [exact Q|]. split; [exact I|].
   intros more0. apply fold_inv. exact I.
